@@ -153,6 +153,23 @@ func runC17(ctx *Ctx) *Report {
 			cases = append(cases, wasmCase{Kind: "wasm", Mode: mode, Fmt: fmtDefault, Doc: hxs(d), Text: docText([]byte(d))})
 		}
 	}
+	// a malformed row under a later root, after roots of every depth
+	for _, d := range []string{"- r1\n  - a\n- r2\n    - x\n", "- r1\n  - a\n    - b\n- r2\n      - x\n", "- r1\n  - a\n    - b\n- r2\n    - x\n", "# h1\n- a\n  - b\n# h2\n    - x\n",
+		"- r1\n- r2\n  - a\n- r3\n    - x\n", "- r1\n  - a\n- r2\n- r3\n    - x\n", "- r1\n  - a\n    - b\n      - c\n- r2\n        - x\n"} {
+		for _, mode := range []string{"text", "json", "dry"} {
+			cases = append(cases, wasmCase{Kind: "wasm", Mode: mode, Fmt: fmtDefault, Doc: hxs(d), Text: docText([]byte(d))})
+		}
+	}
+	// deep trees under branch strings with an empty or self-similar connector
+	{
+		deep := []*Tree{{Name: "r", Kids: []*Tree{{Name: "a", Kids: []*Tree{{Name: "b", Kids: []*Tree{{Name: "c", Kids: []*Tree{{Name: "d", Kids: []*Tree{{Name: "e"}, {Name: "e2"}}}, {Name: "d2"}}}, {Name: "c2"}}}, {Name: "b2", Kids: []*Tree{{Name: "x", Kids: []*Tree{{Name: "y", Kids: []*Tree{{Name: "z"}}}}}}}}}, {Name: "a2"}}}}
+		doc := spell(deep, plainSpelling)
+		for _, fm := range []Fmt4{{"", "  ", "", "  "}, {"+", "+ ", "+", "+ "}, {"", "", "x", "y"}, {"ab", "abab", "ab", "ab"}, {" ", "  ", " ", "   "}, {"|", "||", "|", "| |"}, fmtEmpty, fmtPercent, fmtLookalike} {
+			for _, mode := range []string{"text", "dry"} {
+				cases = append(cases, wasmCase{Kind: "wasm", Mode: mode, Fmt: fm, Exts: []string{".go"}, Doc: hx(doc), Text: docText(doc)})
+			}
+		}
+	}
 	// rows around bufio's 64 KiB token limit: both variants must make the same decision
 	for _, n := range []int{65535, 65536, 70000, 200000} {
 		d := "- " + strings.Repeat("x", n-2) + "\n- b\n"
